@@ -431,7 +431,8 @@ def run(ctx):
     # ------------------------------------------------------------------- R6
     ctx.rule("C05.R6", "the PID->PPID table children() walks is read like "
              "Process.ppid(): stat column 1 counted after the LAST ')' of each "
-             "<pid>/stat record (a name containing ') ' must not shift it)", floor=2)
+             "<pid>/stat record (a name containing ') ' must not shift it); PIDs vanishing "
+             "while it is built are skipped", floor=3)
     from ..core.absint import Interp, alternatives, pretty
     from ..oracles import linux as O
     from .c06 import collect, evaluate, stat_atoms
@@ -449,6 +450,18 @@ def run(ctx):
                  "ppid_map() cuts <pid>/stat at the FIRST ')': for a process whose name "
                  "contains ') ' the parent PID is read from the wrong field, so children() "
                  "attaches it to the wrong parent (Process.ppid() uses the last ')')")
+    # a process vanishing while the table is built (between listing, open and read)
+    # is skipped, it does not make children() fail
+    from ..core.escape import Escape
+    es = Escape(repo, A, "linux").escapes(pmf)
+    bad = sorted({(x.cls, x.site) for x in es
+                  if x.cls in ("FileNotFoundError", "ProcessLookupError") and x.origin == "process"})
+    if bad:
+        ctx.fail("C05.R6", "ppid_map:vanishing", pmf.file, pmf.node.lineno, pmf.qual,
+                 f"a PID vanishing while the ppid table is built raises {bad}: children() of an "
+                 f"unrelated live process fails because some other process exited")
+    else:
+        ctx.ok("C05.R6", "ppid_map:vanishing", sample="ENOENT/ESRCH per PID -> skipped")
     atoms = stat_atoms(ds[0][2])
     if atoms and all(d["file"] == "pid/stat" and d["col"] == O.STAT["ppid"] for _, d in atoms):
         ctx.ok("C05.R6", "ppid_map:column", sample={"stat_column": O.STAT["ppid"]})
